@@ -527,7 +527,9 @@ func (c *Client) doRountrip(ctx context.Context, msg *kmip.RequestMessage) (*kmi
 	if c.closed.Load() {
 		return nil, net.ErrClosed
 	}
-	if c.conn == nil {
+	// A connection which has been terminated is never usable again, whatever the cause
+	// of its termination: replace it, just like a missing one.
+	if c.conn == nil || c.conn.ctx.Err() != nil {
 		if err := c.reconnect(ctx); err != nil {
 			return nil, err
 		}
